@@ -20,17 +20,21 @@ def findPrefix (px : Prefixes) (tok : String) : Option (String × String) :=
 
 /-- `ShapeMapLabelParser.parse_shape_map_label`: `<iri>` stays as it is (corners included); a prefixed
 name becomes `%` + expanded IRI; unknown prefix / no colon is a `ValueError` (`none`) -/
-def parseLabel (px : Prefixes) (raw : String) : Option String :=
+def parseLabelL (px : List (List Char × List Char)) (raw : List Char) : Option (List Char) :=
   if raw.length < 2 then some raw
-  else if raw.startsWith "<" && raw.endsWith ">" then some raw
+  else if ['<'].isPrefixOf raw && ['>'].isPrefixOf raw.reverse then some raw
   else
-    match raw.splitOn ":" with
-    | [_] => none
-    | pre :: rest =>
-      match px.lookup pre with
-      | some ns => some (Gen.STARTING_CHAR_FOR_SHAPE_NAME ++ ns ++ ":".intercalate rest)
+    match raw.dropWhile (· != ':') with
+    | [] => none                                            -- no colon at all
+    | _ :: rest =>                                          -- cut at the FIRST colon: the local name may contain more
+      match px.find? fun e => e.1 == raw.takeWhile (· != ':') with
+      | some e => some (Gen.STARTING_CHAR_FOR_SHAPE_NAME.toList ++ e.2 ++ rest)
       | none => none
-    | [] => none
+
+/-- the same on `String`s (what the driver and the target resolution use); `Props/GenStrLabel.lean` proves that `parseLabelL` is the
+label parser regenerated from /repo -/
+def parseLabel (px : Prefixes) (raw : String) : Option String :=
+  (parseLabelL (px.map fun e => (e.1.toList, e.2.toList)) raw.toList).map String.ofList
 
 inductive Pos
   | focus
